@@ -358,6 +358,9 @@ def run(ctx):
     ctx.notes.update(records_by_kind={k: sum(1 for r in recs if r["kind"] == k) for k in
                                       ("roundtrip", "pushforward", "cdfemp", "samples", "cond", "iform")},
                      cond_records_with_hook=sum(1 for r in recs if r["kind"] == "cond" and r["hooked"]))
+    # growth beyond the listed property: documented Monte-Carlo sizing rules and the axes table
+    from . import ext_sizing
+    ext_sizing.run_ext(ctx, vc)
     # binding self-test
     bad = dict(next(r for r in recs if r["kind"] == "samples"), id=1, equal=False)
     if "SamplesAreInverseImages" not in ctx.validate("Trace_C16", "Trace_C16.cfg", [bad]).get(1, []):
